@@ -949,7 +949,9 @@ class Frame:
             return ('call', e.name or name, vs, None)
         argv = [self.ev(a) for a in args]
         if e.name and e.name.endswith('::id') and not argv:
-            return ('id',)
+            if recv is None or recv == ('this',):
+                return ('id',)
+            return ('op', 'id_of', (recv,))
         self.ip.seq += 1
         self.ip.calls.append((self.ip.seq, e.name or name, tuple(argv), n, self.func))
         if self.depth >= MAXDEPTH or any(t.key in self.ip.stack for t in targets):
